@@ -795,10 +795,14 @@ def u_tables_follow_prms(W, sk):
         SL.check_same_values(W, f"set_prms.{p}", getattr(lm, p), SL.lab_of_values(W, new[p], M.dims))
     # ghost invariant: caches absent or valid.  Decide which, then read.
     rngs = [(0, n), (0, n)] + [(0, e) for e in M.esizes]
-    if lm._sf is None:
-        if W.symbolic:
-            W.c.loop_contracts.append(SurvivalLoop(W, M))
+    # the loop contract is offered whether or not the code keeps a cache object: if the table is recomputed the
+    # contract is consumed, if a (valid) cached table is returned it is withdrawn again
+    pending = SurvivalLoop(W, M) if W.symbolic else None
+    if pending is not None:
+        W.c.loop_contracts.append(pending)
     o = W.call(lambda: lm.sf, stubs=stubs)
+    if pending is not None and pending in W.c.loop_contracts:
+        W.c.loop_contracts.remove(pending)
     W.prove("after_set_prms.sf_returns", o.kind == "return", detail=repr(o))
     if o.kind != "return":
         return
@@ -809,10 +813,12 @@ def u_tables_follow_prms(W, sk):
     else:
         sf = lambda t, c, *r: W.elem(sfa, (t, c) + tuple(r))
     W.forall_range("after_set_prms.sf_is_table_of_current_parameters", rngs, lambda idx: W.num_eq(sf(*idx), M.table(idx[0], idx[1], idx[2:])), detail="the survival table read after set_prms must be the one a fresh model with these parameters computes")
-    if lm._pdf is None:
-        if W.symbolic:
-            W.c.loop_contracts.append(PdfLoop(W, M, sf))
+    pending = PdfLoop(W, M, sf) if W.symbolic else None
+    if pending is not None:
+        W.c.loop_contracts.append(pending)
     o = W.call(lambda: lm.pdf, stubs=stubs)
+    if pending is not None and pending in W.c.loop_contracts:
+        W.c.loop_contracts.remove(pending)
     W.prove("after_set_prms.pdf_returns", o.kind == "return", detail=repr(o))
     if o.kind != "return":
         return
